@@ -65,6 +65,13 @@ def _mk() -> List[Entry]:
         return E.Sudoku(generator=DatabaseGenerator(database=SHARED_ARGS["sudoku_db"][0]), **k)
 
     add("sudoku-shared-db", "Sudoku", _sudoku_shared_db, shared_args=True)
+
+    def _sudoku_dummy(**k):
+        from jumanji.environments.logic.sudoku.generator import DummyGenerator
+        return E.Sudoku(generator=DummyGenerator(), **k)
+
+    # the shipped fixed-board generator: every instance (the first and every later one of a process) must hand out the same board
+    add("sudoku-dummy", "Sudoku", _sudoku_dummy, constant_generator=True)
     add("binpack-toy", "BinPack", lambda **k: E.BinPack(generator=BPToy(), obs_num_ems=10, **k), constant_generator=True)
     def _binpack_csv(**k):
         # CSVGenerator over an instance written by the library's own save_instance_to_csv (kept under /verif/.cache, not /tmp)
